@@ -23,7 +23,7 @@ func init() {
 		}
 		p.Units = []UnitPlan{
 			{"main.FSM.applyProto$1", asserts},
-			{"main.FSM.Snapshot", asserts},
+			{"main.FSM.Snapshot", vc.UnitOpts{AssertsOnly: true, Groups: []string{"mod"}}},
 			{"main.FSM.applyRobustMessage", vc.UnitOpts{Post: true, PostOnly: []string{"mod-marked", "mod-frame"}}},
 			{"ircserver.IRCServer.UpdateLastClientMessageID", vc.UnitOpts{Post: true, Frame: true}},
 		}
